@@ -218,10 +218,15 @@ func zzH_C09_staking_records() {
 	}
 	rel := s.PendingRelationshipExist(d, v)
 	id := s.Snapshot()
-	if zzverif.Bool("frameAddsRecord") {
+	wrote := true
+	switch zzverif.Choose("frame", 3) {
+	case 0:
 		s.AddStakingRecord(d, v, common.Hash{2}, big.NewInt(9))
-	} else {
+	case 1:
 		s.AddPendingRelationship(d, v)
+	case 2: // only reads
+		s.GetStakingRecordValue(d, v)
+		wrote = false
 	}
 	s.RevertToSnapshot(id)
 	zzverif.Reach("reverted")
@@ -230,6 +235,6 @@ func zzH_C09_staking_records() {
 		now = len(r.TxHashes)
 	}
 	same := s.GetStakingRecordValue(d, v).Cmp(value) == 0 && now == hashes && s.PendingRelationshipExist(d, v) == rel
-	zzverif.AssertKF(same, "revert restores pending staking records and pending relationships", "C09-staking-records-not-journalled", true)
+	zzverif.AssertKF(same, "revert restores pending staking records and pending relationships", "C09-staking-records-not-journalled", wrote)
 	zzverif.Reach("end")
 }
